@@ -97,3 +97,24 @@ Definition count (x : nat) (l : list nat) : nat := length (filter (Nat.eqb x) l)
 Definition pairs (n : nat) : list edge := flat_map (fun i => map (pair i) (seq 0 n)) (seq 0 n).
 Lemma nth_map_seq {A} (f : nat -> A) n i d : i < n -> nth i (map f (seq 0 n)) d = f i.
 Proof. intros H. rewrite (nth_indep _ d (f 0)) by (rewrite map_length, seq_length; auto). rewrite map_nth, seq_nth by auto. reflexivity. Qed.
+
+(* ---- traces: what the correspondence check compares.  A history is a list of calls (inl) and out-of-range queries (inr v: every
+   observer that takes a vertex is asked about v).  After every call: how it ended, then what every observer reports, then the answers
+   to the query (empty for a call).  A thrown exception is caught by the caller and the history goes on; undefined behaviour ends it. ---- *)
+Fixpoint gtrace {S O : Type} (step : S -> O -> S * res) (obs : S -> list (list Z)) (query : S -> nat -> list Z) (s : S) (ops : list (O + nat))
+  : list (list (list Z)) :=
+  match ops with
+  | [] => []
+  | inl o :: t => let '(s1, r) := step s o in ([zres r] :: obs s1 ++ [[]]) :: match r with UBk _ => [] | _ => gtrace step obs query s1 t end
+  | inr v :: t => ([0%Z] :: obs s ++ [query s v]) :: gtrace step obs query s t end.
+(* the spec side: Some = what must be reported, None = no opinion (forced calls, and everything after them) *)
+Fixpoint gspec_trace {A O : Type} (rej : A -> O -> option Z) (sstep : A -> O -> A) (sobs : A -> list (list Z)) (sz : A -> nat) (qlen : nat)
+  (a : A) (ops : list (O + nat)) : list (option (list (list Z))) :=
+  match ops with
+  | [] => []
+  | inl o :: t =>
+    match rej a o with
+    | None => map (fun _ => None) ops
+    | Some c => if Z.eqb c 0 then let a' := sstep a o in Some ([0%Z] :: sobs a' ++ [[]]) :: gspec_trace rej sstep sobs sz qlen a' t
+                else Some ([c] :: sobs a ++ [[]]) :: gspec_trace rej sstep sobs sz qlen a t end
+  | inr v :: t => (if Nat.ltb v (sz a) then None else Some ([0%Z] :: sobs a ++ [repeat (zexn OutOfRange) qlen])) :: gspec_trace rej sstep sobs sz qlen a t end.
